@@ -12,13 +12,21 @@
 (*                     (pinned tree) -- the Future then never completes    *)
 (*   MasterResolve     listen phase: pop one jobs.*.status message and     *)
 (*                     complete the matching Future                        *)
+(*   WorkerExit(w)     a worker whose stop event is set leaves its loop.   *)
+(*                     StopBetweenJobs: only with no job in hand (the loop *)
+(*                     looks at the event after its subscription is        *)
+(*                     drained, never between taking a message and running *)
+(*                     it); ExitMayDropJob = TRUE models a worker that      *)
+(*                     checks the event right after taking a message.       *)
+(*   WorkerStart(w)    a (re)started worker joins the same transport        *)
 (* Job j's pipeline outcome is outcome[j] \in {"ok", "fail"}; its result   *)
 (* is the symbolic value <<"result", j>> (the harness compares real        *)
 (* results with direct execution).                                         *)
 (***************************************************************************)
 EXTENDS Integers, Sequences, FiniteSets, TLC
 
-CONSTANTS Jobs, Workers, Outcomes, ReportFailures   \* Outcomes: set of functions Jobs -> {"ok","fail"}
+CONSTANTS Jobs, Workers, Outcomes, ReportFailures,  \* Outcomes: set of functions Jobs -> {"ok","fail"}
+          ExitMayDropJob                            \* sensitivity switch (FALSE = the code's StopBetweenJobs)
 
 VARIABLES jobq,       \* master's FIFO of enqueued, not yet published jobs
           enqueued,   \* set of jobs ever enqueued
@@ -27,35 +35,37 @@ VARIABLES jobq,       \* master's FIFO of enqueued, not yet published jobs
           busy,       \* worker -> job or 0
           future,     \* job -> <<"none",0>> | <<"pending",0>> | <<"result", j>> | <<"error", j>>
           sets,       \* job -> number of times its Future was completed
-          outcome     \* job -> "ok" | "fail": what the job's pipeline does (fixed at Init)
-vars == <<jobq, enqueued, cfgChan, statusChan, busy, future, sets, outcome>>
+          outcome,    \* job -> "ok" | "fail": what the job's pipeline does (fixed at Init)
+          alive       \* worker -> "new" (not started yet: a late joiner) | "on" (loop running) | "off" (left its loop)
+vars == <<jobq, enqueued, cfgChan, statusChan, busy, future, sets, outcome, alive>>
 
 Init == /\ jobq = <<>> /\ enqueued = {} /\ cfgChan = <<>> /\ statusChan = <<>>
         /\ busy = [w \in Workers |-> 0]
         /\ future = [j \in Jobs |-> <<"none", 0>>] /\ sets = [j \in Jobs |-> 0]
         /\ outcome \in Outcomes
+        /\ alive \in {f \in [Workers -> {"new", "on"}] : \E w \in Workers : f[w] = "on"}
 
 Enqueue(j) == /\ j \notin enqueued
               /\ enqueued' = enqueued \cup {j} /\ jobq' = Append(jobq, j)
               /\ future' = [future EXCEPT ![j] = <<"pending", 0>>]
-              /\ UNCHANGED <<cfgChan, statusChan, busy, sets, outcome>>
+              /\ UNCHANGED <<cfgChan, statusChan, busy, sets, outcome, alive>>
 MasterPublish == /\ jobq # <<>>
                  /\ cfgChan' = Append(cfgChan, Head(jobq)) /\ jobq' = Tail(jobq)
-                 /\ UNCHANGED <<enqueued, statusChan, busy, future, sets, outcome>>
+                 /\ UNCHANGED <<enqueued, statusChan, busy, future, sets, outcome, alive>>
 \* a worker scans per-job channels; any in-flight cfg message may be the one it finds first
-WorkerTake(w) == /\ busy[w] = 0
+WorkerTake(w) == /\ busy[w] = 0 /\ alive[w] = "on"
                  /\ \E i \in 1..Len(cfgChan) :
                       /\ busy' = [busy EXCEPT ![w] = cfgChan[i]]
                       /\ cfgChan' = [k \in 1..(Len(cfgChan) - 1) |-> IF k < i THEN cfgChan[k] ELSE cfgChan[k + 1]]
-                 /\ UNCHANGED <<jobq, enqueued, statusChan, future, sets, outcome>>
+                 /\ UNCHANGED <<jobq, enqueued, statusChan, future, sets, outcome, alive>>
 WorkerRunOk(w) == /\ busy[w] # 0 /\ outcome[busy[w]] = "ok"
                   /\ statusChan' = Append(statusChan, <<busy[w], "result">>)
                   /\ busy' = [busy EXCEPT ![w] = 0]
-                  /\ UNCHANGED <<jobq, enqueued, cfgChan, future, sets, outcome>>
+                  /\ UNCHANGED <<jobq, enqueued, cfgChan, future, sets, outcome, alive>>
 WorkerRunFail(w) == /\ busy[w] # 0 /\ outcome[busy[w]] = "fail"
                     /\ statusChan' = IF ReportFailures THEN Append(statusChan, <<busy[w], "error">>) ELSE statusChan
                     /\ busy' = [busy EXCEPT ![w] = 0]
-                    /\ UNCHANGED <<jobq, enqueued, cfgChan, future, sets, outcome>>
+                    /\ UNCHANGED <<jobq, enqueued, cfgChan, future, sets, outcome, alive>>
 MasterResolve == /\ \E i \in 1..Len(statusChan) :
                       LET m == statusChan[i] j == m[1] IN
                       /\ statusChan' = [k \in 1..(Len(statusChan) - 1) |-> IF k < i THEN statusChan[k] ELSE statusChan[k + 1]]
@@ -63,11 +73,19 @@ MasterResolve == /\ \E i \in 1..Len(statusChan) :
                          THEN /\ future' = [future EXCEPT ![j] = <<m[2], j>>]
                               /\ sets' = [sets EXCEPT ![j] = @ + 1]
                          ELSE UNCHANGED <<future, sets>>
-                 /\ UNCHANGED <<jobq, enqueued, cfgChan, busy, outcome>>
+                 /\ UNCHANGED <<jobq, enqueued, cfgChan, busy, outcome, alive>>
+
+\* one worker is stopped / recycled while the queue keeps running (some other worker stays)
+WorkerExit(w) == /\ alive[w] = "on" /\ \E v \in Workers \ {w} : alive[v] = "on"
+                 /\ (busy[w] = 0 \/ ExitMayDropJob)
+                 /\ alive' = [alive EXCEPT ![w] = "off"] /\ busy' = [busy EXCEPT ![w] = 0]
+                 /\ UNCHANGED <<jobq, enqueued, cfgChan, statusChan, future, sets, outcome>>
+WorkerStart(w) == /\ alive[w] = "new" /\ alive' = [alive EXCEPT ![w] = "on"]
+                  /\ UNCHANGED <<jobq, enqueued, cfgChan, statusChan, busy, future, sets, outcome>>
 
 Next == \/ \E j \in Jobs : Enqueue(j)
         \/ MasterPublish \/ MasterResolve
-        \/ \E w \in Workers : WorkerTake(w) \/ WorkerRunOk(w) \/ WorkerRunFail(w)
+        \/ \E w \in Workers : WorkerTake(w) \/ WorkerRunOk(w) \/ WorkerRunFail(w) \/ WorkerExit(w) \/ WorkerStart(w)
 Fairness == /\ WF_vars(MasterPublish) /\ WF_vars(MasterResolve)
             /\ \A w \in Workers : WF_vars(WorkerTake(w)) /\ WF_vars(WorkerRunOk(w)) /\ WF_vars(WorkerRunFail(w))
 Spec == Init /\ [][Next]_vars /\ Fairness
